@@ -1,7 +1,7 @@
 # Per-property driver configuration: which package the harness lives in, whether the
 # race detector is on per tier, shard counts and shard time-outs.
-def P(pkg=".", harness="dastard", race=None, shards=None, shard_timeout=None, gomaxprocs=None, level="exploration"):
-    d = dict(pkg=pkg, harness=harness, level=level)
+def P(pkg=".", harness="dastard", race=None, shards=None, shard_timeout=None, gomaxprocs=None, level="exploration", max_restarts=40):
+    d = dict(pkg=pkg, harness=harness, level=level, max_restarts=max_restarts)
     d["race"] = race or {}
     d["shards"] = shards or {}
     d["shard_timeout"] = shard_timeout or {"quick": 600, "thorough": 3000}
@@ -16,7 +16,7 @@ PROPS = {
     "C19": P(),
     "C04": P(),
     "C17": P(race={"quick": True, "thorough": True}, shards={"quick": 6, "thorough": 12}, gomaxprocs=[4, 2, 8, 16, 3, 6], shard_timeout={"quick": 900, "thorough": 3000}),
-    "C11": P(shard_timeout={"quick": 900, "thorough": 3000}),
+    "C11": P(shard_timeout={"quick": 900, "thorough": 3000}, max_restarts=400),
     "C10": P(shard_timeout={"quick": 1200, "thorough": 3000}),
     "C16": P(shards={"quick": 8, "thorough": 16}, level="fault_enumeration"),
     "C05": P(),
